@@ -8,9 +8,8 @@ RULE = ("correspondence: the four pairing implementations of the model (hand-mod
         "twist) vs the real ones, comparing final-exponentiated FQ12 values exactly, on aG1/bG2 for a,b in {0,1,2,r-1,r,random}, sums, "
         "negations, random projective representatives, infinity, off-curve points; predicates: bilinearity e(bQ,aP)=e(Q,P)^(ab), additivity in "
         "both arguments, negation inverts, e(G2,G1) has order exactly r, unit on infinity, ValueError for off-curve arguments — on the real code")
-HYPOTHESES = ["HB1_bilinear_{bn,bnOpt,bls,blsOpt}: additivity of the Miller-loop pairing in each argument (needs divisors / Weil reciprocity; not in Mathlib) "
-              "— the headline clause of C05 is CONDITIONAL on it; sampled on model and implementation", "HB3_irred12 (FQ12 is a field)"]
-NOT_YET_PROVED = ["bilinearity itself (HB1); e(G2,G1) of order exactly r as a kernel computation"]
+HYPOTHESES = ['HB1 (structure C05.HB1): additivity of the Miller-loop pairing in each argument — the headline bilinearity clause is CONDITIONAL on it; sampled on model and implementation']
+NOT_YET_PROVED = ['bilinearity itself (HB1)', 'e(G2, G1) != 1 by kernel evaluation (PropsHeavy/C05_Nondeg, thorough tier, in progress); e^r = 1 is a theorem (C05_Order)']
 ASSUMPTIONS = []
 nontrivial = nontrivial_default
 CHUNK = 1
